@@ -30,7 +30,8 @@ PROPS["C01"] = dict(
           "binary) against an independent reference GraphQL executor, over rapid-generated operations (fragments, aliases, "
           "@skip/@include, variables) and outcome plans (value/null/error per resolver and directive invocation). "
           "Plans may also make any value read from a parent object and any list element absent (nil pointer / interface, zero Time), not only resolver results; and subscriptions are checked event by event: every event's response must equal the reference's execution of the selection on that event's value (data, errors with full response paths, order), with resolver faults below the event. "
-          "On the probe with renamed roots the schema also declares executable directives of the user: @fx on FIELD (applied to aliased fields of generated operations; it wraps schema directives and the resolver) and @opx on QUERY | MUTATION (applied to the operation; one that refuses leaves data null with one error without path) - the reference models both",
+          "On the probe with renamed roots the schema also declares executable directives of the user: @fx on FIELD (applied to aliased fields of generated operations; it wraps schema directives and the resolver) and @opx on QUERY | MUTATION (applied to the operation; one that refuses leaves data null with one error without path) - the reference models both."
+          " The core probe has a field of the root type below the root (the Relay-style 'viewer: Query'): gqlgen continues with the root object there, and error paths below it keep their full prefix.",
     note="trusts gqlparser's parser/validator for what a valid operation is, the harness reference executor, and reflection-based "
          "universal resolvers; schemas are the harness probe schemas (one with renamed root types) plus random schemas drawn by the sdlgen grammar for the run seed at preparation time (interfaces implementing interfaces, unions, enums, lists and non-null nesting, field-definition directives with arguments; about a third of the object fields made resolvers), generated and compiled like the probes - a random schema that does not generate or compile is dropped and counted (C17 decides that); the binary is built with -race so that "
          "unsynchronised sharing inside the runtime (e.g. of the parsed document) is reported even when the data happens to be right; sampled",
@@ -78,7 +79,8 @@ PROPS["C06"] = dict(
           "schedules (none, yields, delays, reversed sibling completion through gates, mixed) on servers generated with "
           "worker_limit 0/1/2; data bytes and error multiset must be identical across schedules and equal to the reference "
           "executor; mutation root fields must be strictly serial in the invocation log; any race report fails the check."
-          " Storms of failures and twin paths (the same resolver reached through two aliases) are scheduled as well.",
+          " Storms of failures and twin paths (the same resolver reached through two aliases) are scheduled as well."
+          " A quarter of the cases keep gqlgen's own recover hook.",
     note="schedules are sampled and steered, not enumerated; the race detector only sees executed paths",
     technique="metamorphic property-based testing (rapid) across induced schedules + Go race detector as additional oracle",
     rule="evaluation = one execution under one schedule; non-trivial = the schedules produced >=2 distinct resolver completion orders "
@@ -103,7 +105,8 @@ PROPS["C05"] = dict(
           "transport goroutine (keep-alive, aggregator, deferred groups) may survive. "
           "(c) over the websocket transport (both subprotocols, queries and subscriptions): at every cancellation point the client stops the "
           "operation, goes away, or the server context is cancelled - or the operation completes and is stopped afterwards, optionally with "
-          "another operation started right behind - then the session ends: Websocket.Do returns and nothing of the connection stays alive",
+          "another operation started right behind - then the session ends: Websocket.Do returns and nothing of the connection stays alive."
+          " Half of the operations also meet failing user code while they run (resolver errors and panics, list elements of abstract type that no implementor matches, under every worker limit).",
     note="cancellation points are exhaustive per operation, operations are sampled (probe schema and random schemas drawn for the seed); "
          "bounded time is only refuted by deadlock witnesses; websocket sessions over arbitrary message sequences are C11's; here one operation per connection is driven through its cancellation points",
     technique="fault enumeration over cancellation points of rapid-generated operations; invariant oracle over goroutine dumps",
@@ -125,7 +128,8 @@ PROPS["C13"] = dict(
           "server's answer to the query with every @defer removed; plus hasNext, exactly-once (path,label), known label, "
           "path-resolves-in-merge-so-far and termination invariants. "
           "Half of the cases are delivered through gqlgen's multipart/mixed or SSE transport instead of draining the response function: the payloads are parsed off the wire (per part: hasNext true on all but the last, closing boundary / complete event present) and fed to the same oracle."
-          " A third of the servers have an error presenter of their own; every error of every payload must have gone through it, as in the plain execution.",
+          " A third of the servers have an error presenter of their own; every error of every payload must have gone through it, as in the plain execution."
+          " The 'if' of @defer may be a nullable Boolean variable that is left out or null.",
     note="which fields are deferred is implementation-defined and is not asserted; completion orders are steered by the harness but sampled",
     technique="metamorphic property-based testing (rapid): @defer-removal relation + reference executor + invariants over the payload history",
     rule="evaluation = one full payload sequence; non-trivial = >=1 incremental payload and (a group nested under another group's payload, "
@@ -145,7 +149,8 @@ PROPS["C14"] = dict(
           "the executor with the universal resolver's invocation log (over-limit => rejected and nothing invoked); the saturating add is "
           "reached black-box over an exhaustive 13x13 boundary grid. "
           "A fifth of the cases are operations whose cost is decided by variable values (custom functions multiplying an Int argument that is given through a provided or defaulted variable)."
-          " The limit is installed as the fixed extension, per request (Func), through a user extension that embeds the stock one and has an operation-parameter hook of its own, or among other extensions.",
+          " The limit is installed as the fixed extension, per request (Func), through a user extension that embeds the stock one and has an operation-parameter hook of its own, or among other extensions."
+          " The same gate is checked through handler.Server over POST, GET, SSE and websocket.",
     note="custom functions are restricted to monotone forms (the monotonicity clause is only meaningful for those); an interface that "
          "implements the interface may count as an implementor with default cost (both readings of the docs are accepted)",
     technique="property-based differential testing (rapid) against a reference evaluator + metamorphic monotonicity + exhaustive boundary grid",
@@ -173,7 +178,8 @@ PROPS["C02"] = dict(
           "its directive exactly once and no other position does (omitted/null positions are optional as the option says), and a "
           "directive that fails or panics leaves the resolver uncalled with one error at the guarded position."
           " The same cases are also sent as HTTP POST requests to a handler that served another request first (state kept between requests shows as a difference from the direct execution)."
-          " Schema defaults spell out nulls inside object literals (an explicit null in a default is not an omission).",
+          " Schema defaults spell out nulls inside object literals (an explicit null in a default is not an omission)."
+          " The POST handler caches parsed documents and every case is sent twice: the second answer is the one that is judged.",
     note="gqlparser validates literals and variables first; where gqlgen/gqlparser are more lenient than the spec the case is in the "
          "lenient class (only 'equal or error' and 'no number silently changed' are asserted there)",
     technique="property-based differential testing (rapid) against a reference coercion algorithm; three-valued expectations",
@@ -214,7 +220,8 @@ PROPS["C09"] = dict(
           "the operation that may run, strict-JSON GraphQL body shape, and 'executed => 200' / 'non-2xx => nothing ran'. "
           "Half of the servers cache parsed documents (lru), and a request may be repeated up to three times in a row: every answer has to satisfy the contract."
           " Requests may name their document by persisted-query hash (registered earlier in the history or not), with a query cache, and may be repeated."
-          " A GET request may also carry a body of another transport's content type that names a mutation; it is answered from its URL alone.",
+          " A GET request may also carry a body of another transport's content type that names a mutation; it is answered from its URL alone."
+          " The JSON request object may be posted through the UrlEncodedForm transport (operationName and variables as over POST).",
     note="application/graphql and urlencoded transports do not negotiate (configured header or application/json), as their code documents",
     technique="model-based property testing (rapid) against an explicit contract model; resolver log as execution witness",
     rule="evaluation = one HTTP request; non-trivial = multi-operation document, non-default Accept, or GET; distinct by the full request",
@@ -233,7 +240,8 @@ PROPS["C10"] = dict(
           "ServeHTTP, the answer is a strict-JSON GraphQL response, a private TMPDIR is empty afterwards, oversized bodies run nothing, "
           "and well-formed uploads deliver exact bytes/filename/content type to every mapped path through independently readable readers; structural mutation of a valid map path of the very request (index equal to the list length, shorter lists, wrong kinds, extra / missing segments); and websocket sessions fed frames of any type (text, binary, ping, pong, close) and payload (protocol messages with members of the wrong JSON type, null, truncated, nested thousands deep, random bytes, one byte flipped) under both subprotocols, before and after the handshake: the recover hook never runs, the process lives, every server frame is a JSON message object and a fresh session is acknowledged afterwards."
           " Invalid documents are also sent twice to a server with a query cache (the second answer must equal the first), and websocket frames are mutated the same way."
-          " The streaming transports are registered before POST (as documented), so raw bodies sent with their Accept headers reach them.",
+          " The streaming transports are registered before POST (as documented), so raw bodies sent with their Accept headers reach them."
+          " Bodies that declare a required variable and do not provide it are sent after a well-formed request with variables: errors only, nothing runs.",
     note="websocket frames are covered by C11's state machine; native byte-level fuzz targets are not part of the quick tier",
     technique="grammar-based and mutation-based property testing (rapid) with a crash/recover-hook/round-trip oracle",
     rule="evaluation = one request; non-trivial = a request with a structural defect that reaches the transport's decoding stage, or a "
@@ -256,7 +264,8 @@ PROPS["C03"] = dict(
           "reference executor), in lifecycle order, first-registered outermost; resolvers as the reference says; no race report. "
           "A third of the histories go through handler.Server with the POST transport instead of the executor API: each request is a JSON body that leaves out the members it does not need, and the damages include a required variable that is left out entirely or sent as null."
           " The same request histories are also served over the streaming transports (SSE and multipart/mixed, registered before POST as documented) with the same gate and hook-order expectations."
-          " The GET transport takes part in the HTTP histories (an operation it selects that is not a query is refused after the gates and before anything of the operation runs), and the pool holds documents with several operations selected by name.",
+          " The GET transport takes part in the HTTP histories (an operation it selects that is not a query is refused after the gates and before anything of the operation runs), and the pool holds documents with several operations selected by name."
+          " A root object reached again below the root runs its fields as root fields once more (root-field interceptors, no field interceptor for the field that leads there).",
     note="which requests are invalid is known by construction, never by re-validating in process; interleavings are sampled",
     technique="model-based property testing (rapid) of hook histories + Go race detector",
     rule="evaluation = one request; a history is non-trivial if it has >=1 rejected and >=1 accepted request and >=2 extensions of which "
@@ -277,7 +286,8 @@ PROPS["C07"] = dict(
           "the registrations the model says preceded it; the same pools are replayed from 2-8 goroutines under the race detector. "
           "A request with a wrong persisted-query hash claims the hash of another text of the pool, so that a later hash-only request for that text shows whether the rejected request left memory. "
           "Websocket: up to six operations (queries, mutations, subscriptions, invalid ones) are started back to back on one connection of a long-lived server; each must receive, under its own id, exactly the frames a fresh server sends when it runs that operation alone on a connection of its own, and no frame may carry an id nobody started."
-          " Transports may be configured with ResponseHeaders (each response must carry exactly the configured set, whatever ran before it), and a websocket session multiplexes operations of the same pool.",
+          " Transports may be configured with ResponseHeaders (each response must carry exactly the configured set, whatever ran before it), and a websocket session multiplexes operations of the same pool."
+          " The pool holds pairs of texts that differ only in white space that matters (inside a string value, a block string, at the end of a comment); a text is often requested right after its nearest neighbour.",
     note="whether sync.Pool hands the same object to the next request is up to the runtime; websocket sessions are covered by C11",
     technique="differential / metamorphic history testing (rapid) against a fresh-server oracle + Go race detector",
     rule="evaluation = one request compared with a fresh server; non-trivial = a request whose predecessor on the same transport and text "
@@ -323,7 +333,8 @@ PROPS["C11"] = dict(
           "transport goroutine remains parked (goroutine-dump witness), event sources saw their context cancelled; race detector silent, "
           "a crash (gorilla's concurrent-write panic) is a violation. "
           "Subscriptions may be endless (their source stays open until its context is cancelled: only a stop or the end of the session ends them), a stop may follow its start with no pause, and a dedicated generator ends sessions from both sides at (nearly) the same instant with swept offsets."
-          " Operations may be refused by an operation-context extension of the server (as a complexity limit does): they execute nothing and are terminated like any other.",
+          " Operations may be refused by an operation-context extension of the server (as a complexity limit does): they execute nothing and are terminated like any other."
+          " The init function may hand back a context of its own making (not derived from the one it was given).",
     note="ids are never reused within a session (concurrent duplicate ids are a client protocol violation whose handling is undocumented); "
          "'receives its results' is checked at session end only, with a witness, otherwise inconclusive",
     technique="model-based state-machine property testing (rapid) with history invariants + goroutine-dump witnesses + race detector",
@@ -367,7 +378,8 @@ PROPS["C17"] = dict(
           "executor, models, resolver stubs and stub file; a non-zero exit, a panic, or a compile/vet error is a violation. "
           "A third of the cases add an object bound to a user-written Go struct (directly or through autobind) whose fields several schema fields share through fieldName aliases and names that differ only in case."
           " Inputs may be bound to map[string]interface{}, objects to user-written Go types (explicit binding and autobind, including autobind of the generated package itself), schema files may share one base name in different directories, and every project is generated a second time on its own output."
-          " Models may be generated into a package of their own (gqlgen's init layout) with schema types named like exported identifiers of the exec file, the user's model package may be named by the tail of its directory (go-um, myum, um.v2), and directives have up to four arguments with defaults.",
+          " Models may be generated into a package of their own (gqlgen's init layout) with schema types named like exported identifiers of the exec file, the user's model package may be named by the tail of its directory (go-um, myum, um.v2), and directives have up to four arguments with defaults."
+          " Enums may be bound to Go constants of the user's model package through @goModel/@goEnum (typed and untyped), and a federation subgraph with @requires fields is generated with and without explicit_requires.",
     note="96 (quick) / 800 (thorough) points in an enormous space, weighted towards the listed naming patterns; shrinking re-generates",
     technique="property-based testing (rapid) with grammar-based schema generation; oracle = generator exit status + Go type checker",
     rule="evaluation = one generation + build + vet; non-trivial = the schema uses >=3 of: interface-implements-interface, union, recursive "
@@ -385,7 +397,8 @@ PROPS["C18"] = dict(
           "clean tree and on a tree that still contains the previous output (resolver files included); the SHA-256 of every generated "
           "file must be identical across all runs, so regeneration on a freshly generated tree is a no-op."
           " A third of the multi-file projects keep their schema files under one base name in different directories (merged into one generated file by the follow-schema layouts), each file declaring directives of executable locations."
-          " A third of the projects generate models into a package of their own; half of those list the exec package in autobind and may name schema types like exported identifiers of the exec file (Config, ResolverRoot, ...).",
+          " A third of the projects generate models into a package of their own; half of those list the exec package in autobind and may name schema types like exported identifiers of the exec file (Config, ResolverRoot, ...)."
+          " A quarter of the projects are a federation subgraph with @requires fields, two thirds of them with explicit_requires (federation.requires.go is read back on the next run).",
     note="map-order bugs surface with probability < 1 per run; five fresh processes per project bound the miss probability, they do not remove it",
     technique="metamorphic property testing (rapid): repeated generation in separate processes, hash-equality oracle",
     rule="evaluation = one generator run; a project is non-trivial if it has >=2 schema files and a follow-schema layout (exec or resolver); "
@@ -408,7 +421,8 @@ PROPS["C19"] = dict(
           "holding only resolver methods, a package that compiled before compiles after. "
           "A third of the schemas also have Mutation and Subscription roots (channel-valued resolvers), and resolver.omit_template_comment is drawn."
           " Doc comments above resolver methods may span several paragraphs; Mutation and Subscription roots, dot imports and omit_template_comment are drawn as well."
-          " A quarter of the projects keep their two schema files under one base name in different directories, so the follow-schema layout keeps all resolvers in one file.",
+          " A quarter of the projects keep their two schema files under one base name in different directories, so the follow-schema layout keeps all resolvers in one file."
+          " User imports include an alias that is the tail of its import path but not the package's name, and added fields may have a scalar type bound to the user's util package (whose name a user alias of another import has taken).",
     note="bodies are never empty (gqlgen documents an empty body as 'not implemented'); doc comments are plain // comments",
     technique="model-based state-machine property testing (rapid) with a token-stream round-trip oracle",
     rule="evaluation = one regeneration; a history is non-trivial if a regeneration follows both an edit and an evolution and some body has "
